@@ -144,10 +144,21 @@ impl<'a> UserModel<'a> {
                     let old_style =
                         self.model
                             .get_cell_style_or_none(sheet, target_row, target_column)?;
+                    // The content of the target cell is erased when the target area is
+                    // cleared below: keep it so that undo can bring it back.
+                    let old_value = match self
+                        .model
+                        .workbook
+                        .worksheet(sheet)?
+                        .cell(target_row, target_column)
+                    {
+                        Some(Cell::SpillCell { s, .. }) => Some(Cell::EmptyCell { s: *s }),
+                        other => other.cloned(),
+                    };
                     changes.push((
                         target_row,
                         target_column,
-                        None,
+                        old_value,
                         old_style,
                         None,
                         value.style.clone(),
@@ -215,6 +226,17 @@ impl<'a> UserModel<'a> {
                     column: target_column,
                     new_value: v.clone(),
                     old_value: Box::new(old_value),
+                });
+            } else if old_value.is_some() {
+                // nothing is pasted here (the source was a spill cell) but the old
+                // content was cleared with the rest of the target area
+                diff_list.push(Diff::RangeClearContents {
+                    sheet,
+                    row: target_row,
+                    column: target_column,
+                    width: 1,
+                    height: 1,
+                    old_value: vec![vec![old_value]],
                 });
             }
             self.model
